@@ -132,6 +132,28 @@ def r_sender_total(ctx):
                     send_nodes += [m.id for m in cfg.nodes if m.ast is p and m.kind == 'iter']
     whiles = [n for n in cfg.nodes if n.kind == 'loop']
     ctx.require(whiles, 'no per-follower while loop in the sender')
+    # the round visits every node: the per-node `for` loop is left only when it is exhausted (no return / break out of it)
+    outer = [n for n in cfg.nodes if n.kind == 'iter' and any(P.self_attr(x, f.self_name) in (R.voters, R.observers) for x in ast.walk(n.ast.iter))
+             and not any(isinstance(p_, (ast.For, ast.While)) for p_ in n.parents)]
+    for o in outer:
+        inst = 'a send round visits every node (the per-node loop is not left early)'
+        ctx.tick()
+        inside_o = [m for m in cfg.nodes if any(p_ is o.ast for p_ in m.parents)]
+        early = None
+        for m in inside_o:
+            for d, l in m.succ:
+                if isinstance(l, tuple) and l[0] == 'exc':
+                    continue
+                dn = cfg.nodes[d]
+                if dn is o or any(p_ is o.ast for p_ in dn.parents):
+                    continue
+                early = m
+        if early is not None:
+            ctx.violation('%s:send-round-left-early' % f.qualname, f.loc(early.ast),
+                          'the per-node loop of a send round can be left from inside (`%s`): the nodes that come later in the iteration get nothing in this round -- a slow or '
+                          'read-only node that is served first starves the voters of heartbeats' % unparse(early.ast)[:40], instance=inst)
+        else:
+            ctx.ok(inst, f.loc(o.ast), 'no edge from the loop body to the outside except through the loop head')
     for w in whiles:
         # body start = true edges of the loop condition chain: nodes inside the loop reachable from head
         test_nodes = set()
